@@ -222,6 +222,10 @@ def run(ctx):
         else:
             ctx.check(len_cmp, "C15.class-untouched", "C15.class-untouched:count-compare", w.where(mainc),
                       bad_msg="no comparison of the class count before and after filtering was found: the attribute is rewritten even when nothing was filtered")
+    # "a clean document within the depth limit is returned unchanged" presupposes the limit (explicit value first, else the mode's 100), the allow-lists
+    # and the node verdicts of C14: those rules are part of this check
+    from . import C14 as _C14
+    _C14.run(ctx)
     ctx.assumptions += ["idempotence itself (equality of serialized documents) is not decided; these are necessary conditions only"]
     ctx.samples += [{"replacement": "font -> span, color -> data-mx-color", "closure": "span allows data-mx-color; span is not deprecated"}]
 
